@@ -37,10 +37,14 @@ PAIRS = [
     ("commonmark", "1. a\n   b\n\n<div>\nx\n</div>\n\n[r]: /u 't'\n\n[r] ![i](s)\n", "***\n\n    code\n\n~~~\nf\n~~~\n"),
     ("zero", "plain *text*\n", "> more\n"),
     ("commonmark", "[a](/u 't') ![i](s) <http://x.y>\n\n[r]: /v\n", "[b](</w> \"q\") [r] ![j](k)\n\n[r]: /z 'T'\n"),
+    ("commonmark", "``x `a` pad `b` ```c `d`\n", "`` `z` ``` ` y\n"),
 ]
 
 HOOK_DOCS = [("commonmark", "[a](/u 't') (see b) ![i](/s \"u\") <http://x.y> end\n\n[r]: /v 'w'\n\n[r] tail\n", "[b](/other \"q\") ![j](/k) [r2]\n\n[r2]: </z z> 'T'\n"),
-             ("js-default", "*a* [l](/1) `c` [m](/2 't') ~~s~~ <http://p.q>\n", "![x](/3) [y](/4)\n\n|h|\n|-|\n|[z](/5)|\n")]
+             ("js-default", "*a* [l](/1) `c` [m](/2 't') ~~s~~ <http://p.q>\n", "![x](/3) [y](/4)\n\n|h|\n|-|\n|[z](/5)|\n"),
+             # per-parse scan caches (backtick closers, skipToken positions): the inner parse has closers where the outer has none
+             ("commonmark", "``x `a` [l](/u) `b` ```c [m](/v) `d`\n", "`` `z` ``` ` y\n"),
+             ("commonmark", "[[[ `a` [l](/u) ]]] `b` <http://x.y> ``c`` `\n", "` [ `` [q](/w) ]\n")]
 
 
 def hook_reentry(ctx: Ctx):
